@@ -55,18 +55,19 @@ func NewUntrustedMessageHandlers(ctx context.Context, trustedState *state.State,
 	memPool *state.MemPool, txChannel *TxChannel,
 	isRelevant IsRelevant, address string) map[string]MessageHandler {
 
-	blockHandler := NewBlockHandler(trustedState, nil)
 	txHandler := NewUntrustedTXHandler(untrustedState, txChannel)
 
+	// Blocks are only ever requested from the trusted node, so there is no handler for blocks from
+	// untrusted nodes. A block from an untrusted node must not be able to fill a block request made
+	// to the trusted node.
 	return map[string]MessageHandler{
 		wire.CmdPing:     NewPingHandler(),
 		wire.CmdVersion:  NewUntrustedVersionHandler(untrustedState, address),
 		wire.CmdAddr:     NewAddressHandler(peers),
 		wire.CmdInv:      NewUntrustedInvHandler(untrustedState, tracker, memPool),
 		wire.CmdTx:       txHandler,
-		wire.CmdBlock:    blockHandler,
 		wire.CmdHeaders:  NewUntrustedHeadersHandler(untrustedState, peers, address, blockRepo),
 		wire.CmdReject:   NewRejectHandler(),
-		wire.CmdExtended: NewExtendedHandler(blockHandler, txHandler),
+		wire.CmdExtended: NewExtendedHandler(nil, txHandler),
 	}
 }
